@@ -169,6 +169,12 @@ impl Engine for C13 {
                         continue;
                     }
                     ctx.trace(|| json!({ "program": p, "fault_index": i, "witness": format!("{tag} fault {i}") }));
+                    if tier == Tier::Thorough && fault.text.starts_with("src.") {
+                        if let Some(msg) = audit_fault_with_llvm_tblgen(&em, fault, tag) {
+                            ctx.machinery_error(msg);
+                        }
+                        ctx.add("typed_faults_audited_with_llvm_tblgen", 1);
+                    }
                     let fails = to_failures(guard(|| check_fault(&em, fault)), json!({ "program": p, "fault_index": i, "trivia": false }), format!("fault {i}"));
                     ctx.case(true);
                     ctx.add("faults_seeded", 1);
@@ -209,12 +215,37 @@ impl Engine for C13 {
     }
 }
 
+/// Audit of the conversion relation, never a verdict: a one-file matrix program in which a slot receives a
+/// declared-type value the reference calls inconvertible must be rejected by llvm-tblgen 14.
+fn audit_fault_with_llvm_tblgen(em: &Emitted, fault: &Fault, tag: &str) -> Option<String> {
+    if em.files.len() != 1 || !fault.text.starts_with("src.") {
+        return None;
+    }
+    let exe = ["/usr/bin/llvm-tblgen-14", "/usr/bin/llvm-tblgen"].into_iter().find(|e| std::path::Path::new(e).exists())?;
+    let faulty = apply(em, fault);
+    let text: String = faulty[0].1.lines().filter(|l| !NEWER.iter().any(|n| l.contains(n))).map(|l| format!("{l}\n")).collect();
+    let dir = tgv_core::runner::root().join(".work").join("C13").join(format!("audit{}", std::process::id()));
+    std::fs::create_dir_all(&dir).ok()?;
+    let path = dir.join("f.td");
+    std::fs::write(&path, &text).ok()?;
+    let out = std::process::Command::new(exe).arg(&path).output().ok()?;
+    let _ = std::fs::remove_dir_all(&dir);
+    if out.status.success() {
+        let at = fault.span.0;
+        let line = faulty[0].1[..at].rfind('\n').map(|i| i + 1).unwrap_or(0);
+        Some(format!("llvm-tblgen accepts what the reference calls a type-incompatible value in `{tag}`: `{}`", faulty[0].1[line..].lines().next().unwrap_or_default()))
+    } else {
+        None
+    }
+}
+
+const NEWER: &[&str] = &[
+    "dump ", "!div", "!logtwo", "!listflatten", "!repr", "!range", "!tolower", "!toupper", "!getdagarg", "!getdagname", "!setdagarg", "!setdagname", "!listremove", "!exists", "!initialized",
+];
+
 /// Audit of the generator, never a verdict: the part of a valid one-file program that
 /// llvm-tblgen 14 can express (no `dump`, no operator newer than LLVM 14) must be accepted by it.
 fn audit_with_llvm_tblgen(p: &Program, tag: &str) -> Option<String> {
-    const NEWER: &[&str] = &[
-        "dump ", "!div", "!logtwo", "!listflatten", "!repr", "!range", "!tolower", "!toupper", "!getdagarg", "!getdagname", "!setdagarg", "!setdagname", "!listremove", "!exists", "!initialized",
-    ];
     if p.files.len() != 1 {
         return None;
     }
